@@ -113,13 +113,43 @@ pub fn run(_tier: &str) -> Report {
             fail(&mut f_size, json!({"canonical_json_bytes": len, "content_hash_ok": c, "reference_hash_ok": r, "expected_ok": want}));
         }
     }
+    // the same limit when the bytes sit in a field that redaction removes: the event is over the limit, what is hashed for
+    // the reference hash is small
+    let mut n_size = 2u64;
+    for (ty, rules) in [("m.room.message", RoomVersionRules::V1), ("m.room.message", RoomVersionRules::V3), ("m.room.message", RoomVersionRules::V4), ("m.room.message", RoomVersionRules::V11), ("m.room.topic", RoomVersionRules::V10)] {
+        for (place, extra) in [("content.body", 0usize), ("content.body", 1), ("an unspecified top-level key", 0), ("an unspecified top-level key", 1)] {
+            n += 1;
+            n_size += 1;
+            let build = |fill: usize| {
+                let mut ev = CanonicalJsonObject::new();
+                ev.insert("type".into(), CanonicalJsonValue::String(ty.into()));
+                ev.insert("sender".into(), CanonicalJsonValue::String("@a:s".into()));
+                let mut content = CanonicalJsonObject::new();
+                content.insert("body".into(), CanonicalJsonValue::String(if place == "content.body" { "a".repeat(fill) } else { String::new() }));
+                ev.insert("content".into(), CanonicalJsonValue::Object(content));
+                if place != "content.body" {
+                    ev.insert("x_extra".into(), CanonicalJsonValue::String("a".repeat(fill)));
+                }
+                ev
+            };
+            let framing = serde_json::to_string(&build(0)).unwrap().len();
+            let ev = build(65535 - framing + extra);
+            let len = serde_json::to_string(&ev).unwrap().len();
+            let c = ruma_signatures::content_hash(&ev).is_ok();
+            let r = ruma_signatures::reference_hash(&ev, &rules).is_ok();
+            let want = len <= 65535;
+            if c != want || r != want {
+                fail(&mut f_size, json!({"type": ty, "event_id_format": format!("{:?}", rules.event_id_format), "oversize_bytes_in": place, "canonical_json_bytes": len, "content_hash_ok": c, "reference_hash_ok": r, "expected_ok": want}));
+            }
+        }
+    }
     Report {
-        bound: "every subset of 12 optional top-level keys (incl. the transient keys age_ts / outlier / destinations other implementations strip) x 3 event types x RoomVersionRules V1..V11; size limit at 65535/65536 bytes".to_owned(),
+        bound: "every subset of 12 optional top-level keys (incl. the transient keys age_ts / outlier / destinations other implementations strip) x 3 event types x RoomVersionRules V1..V11; size limit at 65535/65536 bytes with the bytes in a field that redaction keeps, in content.body and in an unspecified top-level key (5 event type / room version pairs)".to_owned(),
         cases: n,
         obligations: vec![
             ("content_hash_is_sha256_of_event_without_hashes_signatures_unsigned", (3 << keys.len()) as u64, f_content),
             ("reference_hash_is_sha256_of_redacted_event_without_signatures_unsigned", (33 << keys.len()) as u64, f_ref),
-            ("hashing_rejects_events_over_65535_bytes_only", 2, f_size),
+            ("hashing_rejects_events_over_65535_bytes_only", n_size, f_size),
             ("hash_functions_never_panic", n, f_panic),
         ],
     }
